@@ -86,6 +86,47 @@ def nontrivial(case):
     return case.get('kind', 'wire') not in ('heartbeat', 'protocol')
 
 
+def check_huge(case):
+    """body frames of 16 MiB and more (the size field needs its top octet): selected
+    strict prefixes must be refused"""
+    n = case['size']
+    payload = bytes(case['fill']) * (n // len(case['fill']) + 1)
+    data = b'\x03' + case['ch'].to_bytes(2, 'big') + n.to_bytes(4, 'big') + \
+        payload[:n] + b'\xce'
+    k = n % (1 << 24)
+    cuts = sorted({c for c in (list(range(0, 40)) + [8 + k + d for d in range(-3, 12)] +
+                               [7 + n + d for d in (-2, -1, 0)] +
+                               [(1 << 24) + d for d in range(-2, 12)] +
+                               [1 << 16, 1 << 20, n // 2])
+                   if 0 <= c < len(data)})
+    for cut in cuts:
+        try:
+            res = frame.unmarshal(data[:cut])
+        except UnmarshalingException:
+            continue
+        except Exception as e:
+            raise Violation('wrong-exception:huge-body:%s@%s' %
+                            (type(e).__name__, lib_site(e)),
+                            '%d-byte body frame cut at %d raised %s' %
+                            (n, cut, type(e).__name__))
+        raise Violation('returned-frame:huge-body', '%d-byte body frame cut at %d of %d '
+                        'returned consumed=%r' % (n, cut, len(data), res[0]))
+    res = call('unmarshal', frame.unmarshal, data)
+    if res[0] != len(data) or res[1] != case['ch'] or res[2].value != data[7:-1]:
+        raise Violation('huge-body-roundtrip', 'complete %d-byte body frame decoded as '
+                        'consumed=%r' % (n, res[0]))
+    return {'sub_evaluations': len(cuts), 'labels': ['size>=16MiB']}
+
+
+def huge_cases(tier, shard, nshards):
+    out = []
+    for size in ((1 << 24) - 1, 1 << 24, (1 << 24) + 5, (1 << 24) + 4096,
+                 (1 << 25) + 1):
+        for fill in ([0xCE], [0x00, 0xCE, 0x41]):
+            out.append({'size': size, 'fill': fill, 'ch': 3, 'tier': tier})
+    return out[shard::nshards]
+
+
 def catalogue(tier, shard, nshards):
     return [{'wire': c, 'tier': tier} for c in wire.catalogue_frames()][shard::nshards]
 
@@ -109,6 +150,10 @@ COMPONENTS = [
               exhaustive=True,
               describe='every strict prefix of one peer-made frame per method class '
                        '(all 19 table tags), headers with two flag words, body'),
+    Component('huge-bodies', check_huge, cases=huge_cases, nontrivial=lambda c: True,
+              distinct_by_construction=True, shards={'quick': 10, 'thorough': 10},
+              describe='body frames of 16 MiB - 1 .. 32 MiB + 1 bytes: prefixes around '
+                       'the header, around size mod 2^24, around 2^24 and at the end'),
     Component('prefixes', check, strategy=cases, nontrivial=nontrivial,
               budget={'quick': 6400, 'thorough': 64000},
               describe='every strict prefix of generated frames of all kinds'),
